@@ -35,8 +35,9 @@ Proof. exact merge_deletions_ok. Qed.
 (* ---------------- self-merge at the level of the whole database (db/MergeSelf.v) ----------------
    Merging a database with itself returns it unchanged with an empty log: for every database (any
    size, depth, entries, histories, tombstones) whose UUIDs, root included, are pairwise distinct
-   and whose groups below the root carry a LastModificationTime.  Both conditions are needed
-   (MergeSelf.cx_lm_needed, cx_dup_needed, cx_root_needed, cx_root2_needed).  Idempotence of a
+   and whose groups, root included since the repair F19 (the root's own fields are merged now),
+   carry a LastModificationTime.  Both conditions are needed
+   (MergeSelf.cx_lm_needed, cx_root_lm_needed, cx_dup_needed, cx_root2_needed).  Idempotence of a
    SECOND merge of another source is proved per component above and carried end to end by the
    correspondence sweep; it is false in the corner recorded as finding F15b. *)
 From KP Require Import MergeSelf.
